@@ -263,6 +263,13 @@ def ctopq(P, c):
         AGGOP.get(a["fn"], "AOther"), cbw(P, a.get("pre")), cbw(P, a.get("suf")), ccmpq(P, a.get("cmp")), crangeq(P, a["range"]))
 
 
+# one vm_compute for the three results: every Eval compiles the case list anew (2-3 s on the 2001-series case)
+EVAL3 = ("Definition R := Eval vm_compute in (mismatches cases, agg_plan_mismatches qs cases, ref_spec_violations qs cases).\n"
+         "Definition M := Eval vm_compute in fst (fst R).\nPrint M.\n"
+         "Definition A := Eval vm_compute in snd (fst R).\nPrint A.\n"
+         "Definition V := Eval vm_compute in snd R.\nPrint V.\n")
+
+
 def eval_chain_cases(ck, name, cases):
     P = Pool()
     body = ";\n  ".join(case_to_coq(P, c) for c in cases)
@@ -272,9 +279,7 @@ def eval_chain_cases(ck, name, cases):
     # V: the specification oracle over the chain the PARSED query prescribes (ref_chain), not over the planner's choice
     txt = (PRELUDE_PLAN + "\n".join(P.defs) + "\nDefinition cases : list fcase := [\n  " + body + "].\n"
            "Definition qs : list ftopq := [\n  " + qs + "].\n"
-           "Definition M := Eval vm_compute in mismatches cases.\nPrint M.\n"
-           "Definition A := Eval vm_compute in agg_plan_mismatches qs cases.\nPrint A.\n"
-           "Definition V := Eval vm_compute in ref_spec_violations qs cases.\nPrint V.\n")
+           + EVAL3)
     rc, out = ck.coq_eval(name, txt)
     if rc != 0:
         return None, None, None, out
@@ -661,6 +666,40 @@ def internal_pipe_kinds(c):
     return out
 
 
+CMPF = {">": lambda a, b: a > b, ">=": lambda a, b: a >= b, "<": lambda a, b: a < b, "<=": lambda a, b: a <= b, "==": lambda a, b: a == b, "!=": lambda a, b: a != b}
+
+
+def inner_cmp_decides(c):
+    """a vector aggregation over count_over_time / bytes_over_time / rate with a comparison written INSIDE it: does some group of the
+    by / without clause hold two or more series of the range aggregation of which one falls on the other side of the threshold than
+    the group's total?  (Only there the place of the comparison -- before or behind the regrouping -- shows in the answer of a sum.)
+    Read off the recorded output of the range-aggregation stage; a measure of the generator's reach, never a verdict."""
+    a = c.get("aggs") or {}
+    rq = a.get("range") or {}
+    if a.get("kind") != "agg" or not rq.get("cmp") or rq.get("unwrap") or c["out"]["err"] != "":
+        return False
+    ch, so = c["chain"], c.get("stage_out") or []
+    j = next((i for i, st in enumerate(ch) if st["k"] == "lra"), None)
+    if j is None or j >= len(so) or j + 1 >= len(ch) or ch[j + 1]["k"] != "comparison":
+        return False
+    bw = a.get("suf") or a.get("pre") or {"by": True, "names": []}
+    try:
+        th = float.fromhex(rq["cmp"]["val"])
+        groups = {}
+        for e in so[j] or []:
+            if e["err"] != "":
+                continue
+            l = e.get("labels") or {}
+            g = {k: v for k, v in l.items() if (k in (bw.get("names") or [])) == bool(bw.get("by"))}
+            d = groups.setdefault((e["ts"], json.dumps(g, sort_keys=True)), {})
+            k = json.dumps(l, sort_keys=True)
+            d[k] = d.get(k, 0.0) + float.fromhex(e["val"])
+    except ValueError:
+        return False
+    f = CMPF[rq["cmp"]["op"]]
+    return any(len(d) >= 2 and any(f(v, th) != f(sum(d.values()), th) for v in d.values()) for d in groups.values())
+
+
 def eval_plan_cases(ck, name, cases):
     rows = []
     for c in cases:
@@ -796,6 +835,9 @@ def run_cases(ck, cases, label):
         ah["outer_comparison"] += a.get("kind") == "agg" and bool(a.get("cmp"))
         ah["range_comparison"] += a.get("kind") == "range" and bool(a["range"].get("cmp"))
         ah["unwrap_with_clause"] += bool((a.get("range") or {}).get("unwrap")) and bool(a["range"].get("pre") or a["range"].get("suf"))
+        dec = inner_cmp_decides(c)
+        ah["inner_comparison_splits_a_group"] = ah.get("inner_comparison_splits_a_group", 0) + dec
+        ah["of_those_sum_over_count_or_bytes_over_time_"] = ah.get("of_those_sum_over_count_or_bytes_over_time_", 0) + (dec and a.get("fn") == "sum" and a["range"]["fn"] in ("count_over_time", "bytes_over_time"))
     ck.obligation("%s: correspondence model run_chain = implementation on %d (chain, batching) cases" % (label, len(runnable)), not mism,
                   "mismatching case ids: %s" % mism[:10])
     known = ck.known_findings()
@@ -1093,4 +1135,8 @@ def run(ck):
     ck.extra["drop_repeats"] = dr
     ck.obligation("the generator reaches in-process drop stages that name one label several times (%d such stages, on %d of them an arriving label is removed by a parameter that is not the last one naming it)" % (
         dr["with_a_repeated_name"], dr["repeat_decides_an_entry"]), ck.replay is not None or dr["repeat_decides_an_entry"] >= ck.n(20, 250), "forms: %s" % dr["forms"])
+    ap = ck.extra.get("aggregator_plans") or {}
+    ck.obligation("the generator reaches comparisons written inside a vector aggregation whose threshold lies between a series of the range aggregation and the total of its group (%d cases, %d of them sum over count_over_time / bytes_over_time; %d inner comparisons under a vector aggregation in all)" % (
+        ap.get("inner_comparison_splits_a_group", 0), ap.get("of_those_sum_over_count_or_bytes_over_time_", 0), ap.get("inner_comparison_under_a_vector_aggregation", 0)),
+        ck.replay is not None or ap.get("of_those_sum_over_count_or_bytes_over_time_", 0) >= ck.n(12, 120), "aggregator plans: %s" % ap)
     ck.add_samples([{"query": c["query"], "in": c["in"], "limit": c["limit"], "out": c["out"]} for c in allcases if c.get("mode", "") != "fp" and nontrivial(c)][:3])
